@@ -42,11 +42,11 @@ pub const WORDS: [&str; 46] = [
     "election win", "debug force-election", "rp 1", "replicate-since-to",
 ];
 
-const TOKENS: [&str; 40] = [
+const TOKENS: [&str; 44] = [
     "", "x", "k", "-1", "0", "1", "2147483647", "-2147483648", "2147483648", "18446744073709551615", "18446744073709551616",
     "340282366920938463463374607431768211455", "340282366920938463463374607431768211456", "$$token", "$$x", "$connections", "$conflicts",
     ";", "a;b", "ünï", "|", "true", "false", "*", "q", "tokq", "nosuch", "10.0.0.9:3014", "10.0.0.1:3014", "candidate", "win", "alive",
-    "pending-ops", "list-dbs", "rwix", "r k*|w *", "abc def", "q|nosuch", "1e9", "+5",
+    "pending-ops", "list-dbs", "rwix", "r k*|w *", "abc def", "q|nosuch", "1e9", "+5", "nosuch|q", "nosuch|q|r", "q|nosuch|r", "q|r",
 ];
 
 /// well-formed lines that take the less common lock paths (database switch, creation, named snapshots)
